@@ -238,15 +238,17 @@ class DomainParser:
             self.logger.warning("Received an action with no preconditions.")
             return
 
-        if preconditions_ast[0] != "and" and len(preconditions_ast[1:]) > 1:
-            raise SyntaxError(
-                f"Only accepting conjunctive preconditions! Action - {new_action.name} does not conform!"
-            )
-
+        # A body that is not a conjunction - a single literal, (not ...), (or ...), a comparison -
+        # is the only member of the implicit conjunction.
+        conditions_ast = (
+            preconditions_ast[1:]
+            if preconditions_ast[0] == "and"
+            else [preconditions_ast]
+        )
         action_preconditions = CompoundPrecondition()
         self.preconditions_parser.parse(
             precondition_root=action_preconditions.root,
-            preconditions_ast=preconditions_ast[1:],
+            preconditions_ast=conditions_ast,
             domain_functions=domain_functions,
             domain_types=domain_types,
             domain_predicates=domain_predicates,
